@@ -10,6 +10,14 @@
 //
 // usage: c20_harness <cases> <impl> <stats.json> <first_seq> <n_seq> <scratch_dir>
 //        c20_harness probe <name> <scratch_dir>     one known-defect demonstration in a process of its own
+// Failing reads are produced at EVERY stage of read_fits / read_fits_mem / read_fits_core, on the disk and the memory
+// route: (a) damaged real files (garbage, missing, no ORDERi, no KNOTSi, empty primary array, KNOTSi not non-decreasing,
+// KNOTSi of the wrong length), (b) the real file cut short at every FITS block boundary and inside every block, (c) every
+// cfitsio call the reader makes (open, HDU count / move, image dimension, header space, ORDER / ORDERi / PERIODi keys,
+// image size, coefficient pixels, per knot vector: move by name / size / pixels, EXTENTS: move / size / pixels, close)
+// made to fail in turn, once or for good (interposed entry points).  The stage at which such a read ends (FileDesc.kind
+// of the model) is worked out by `ref_walk`, an independent restatement of the reader as its cfitsio call sequence.
+//
 // env:   VERIF_SEED; PSV_ONLY="seq fail rfop rfkind rfarg" runs that single variant; PSV_KEEP="0110..." keeps
 //        only the ops whose character is '1' (shrinking); PSV_MAXFAIL caps the failure positions per sequence;
 //        PSV_C20_CFG=head|repaired: which stacking constructor the tree has (head: /repo as it is; the harness then
@@ -92,6 +100,22 @@ extern "C" int __wrap_glamfit_complex(const struct ndsparse* d, const double* w,
   if (g_glam_fail) { g_glam_fired++; return 1; }   // what glamfit_complex reports when the solver gives up ("Solution FAILED")
   return __real_glamfit_complex(d, w, c, nd, nk, k, na, co, o, pen, mono, verbose, cc);
 }
+// input: the cfitsio entry points read_fits / read_fits_mem / read_fits_core call.  While `g_rd_on`, every call made from
+// outside cfitsio (cfitsio calls some of these itself: depth guard) is counted; call number `g_rd_at` reports an error
+// (and, `g_rd_sticky`, so does every later one: a medium that has gone away) without doing anything.
+static bool g_rd_on = false, g_rd_sticky = false; static long g_rd_at = -1, g_rd_seen = 0, g_rd_fired = 0; static int g_rd_depth = 0;
+struct RdDepth { RdDepth() { g_rd_depth++; } ~RdDepth() { g_rd_depth--; } };
+static bool rd_hit(int* status) {
+  if (!g_rd_on || g_rd_depth != 1) return false;
+  long n = g_rd_seen++;
+  if (g_rd_at < 0 || !(n == g_rd_at || (g_rd_sticky && n > g_rd_at))) return false;
+  if (*status > 0) return false;   // cfitsio's convention: a call entered with an error status does nothing and returns it
+  g_rd_fired++; return true;
+}
+struct RdArm {
+  RdArm(long at, bool sticky) { g_rd_on = true; g_rd_at = at; g_rd_sticky = sticky; g_rd_seen = 0; g_rd_fired = 0; }
+  ~RdArm() { g_rd_on = false; g_rd_at = -1; }
+};
 // output: which step fails (0 = none).  1 ffcrim (create image), 2 ffppx (write pixels), 3 ffpky (write key), 4 ffclos (close),
 // 5 libc fwrite (ENOSPC, every write from now on); `g_io_nth`: the n-th call of that kind (0 or 1; both always happen).
 static int g_io_kind = 0, g_io_nth = 0, g_io_seen = 0; static long g_io_fired = 0;
@@ -114,6 +138,7 @@ extern "C" int ffpky(fitsfile* f, int dt, const char* k, void* v, const char* c,
 extern "C" int ffclos(fitsfile* f, int* status) {
   static auto real = (int (*)(fitsfile*, int*))dlsym(RTLD_NEXT, "ffclos");
   if (io_hit(4)) { int s = 0; real(f, &s); *status = FILE_NOT_CLOSED; return *status; } // handle released, error reported (a failing fclose)
+  RdDepth d; if (rd_hit(status)) { int s = 0; real(f, &s); *status = FILE_NOT_CLOSED; return *status; }
   return real(f, status);
 }
 extern "C" size_t fwrite(const void* p, size_t sz, size_t n, FILE* f) {
@@ -122,11 +147,122 @@ extern "C" size_t fwrite(const void* p, size_t sz, size_t n, FILE* f) {
   return real(p, sz, n, f);
 }
 
+// input: the cfitsio entry points the reader calls (counter and arming: see above)
+extern "C" int ffdkopn(fitsfile** f, const char* name, int mode, int* status) {
+  static auto real = (int (*)(fitsfile**, const char*, int, int*))dlsym(RTLD_NEXT, "ffdkopn");
+  RdDepth d; if (rd_hit(status)) { *f = nullptr; *status = FILE_NOT_OPENED; return *status; }
+  return real(f, name, mode, status);
+}
+extern "C" int ffomem(fitsfile** f, const char* name, int mode, void** buf, size_t* sz, size_t delta, void* (*re)(void*, size_t), int* status) {
+  static auto real = (int (*)(fitsfile**, const char*, int, void**, size_t*, size_t, void* (*)(void*, size_t), int*))dlsym(RTLD_NEXT, "ffomem");
+  RdDepth d; if (rd_hit(status)) { *f = nullptr; *status = FILE_NOT_OPENED; return *status; }
+  return real(f, name, mode, buf, sz, delta, re, status);
+}
+extern "C" int ffthdu(fitsfile* f, int* n, int* status) {
+  static auto real = (int (*)(fitsfile*, int*, int*))dlsym(RTLD_NEXT, "ffthdu");
+  RdDepth d; if (rd_hit(status)) { *status = READ_ERROR; return *status; }
+  return real(f, n, status);
+}
+extern "C" int ffmahd(fitsfile* f, int hdu, int* type, int* status) {
+  static auto real = (int (*)(fitsfile*, int, int*, int*))dlsym(RTLD_NEXT, "ffmahd");
+  RdDepth d; if (rd_hit(status)) { *status = READ_ERROR; return *status; }
+  return real(f, hdu, type, status);
+}
+extern "C" int ffgidm(fitsfile* f, int* naxis, int* status) {
+  static auto real = (int (*)(fitsfile*, int*, int*))dlsym(RTLD_NEXT, "ffgidm");
+  RdDepth d; if (rd_hit(status)) { *status = READ_ERROR; return *status; }
+  return real(f, naxis, status);
+}
+extern "C" int ffghsp(fitsfile* f, int* nexist, int* nmore, int* status) {
+  static auto real = (int (*)(fitsfile*, int*, int*, int*))dlsym(RTLD_NEXT, "ffghsp");
+  RdDepth d; if (rd_hit(status)) { *status = READ_ERROR; return *status; }
+  return real(f, nexist, nmore, status);
+}
+extern "C" int ffgky(fitsfile* f, int dt, const char* key, void* v, char* comm, int* status) {
+  static auto real = (int (*)(fitsfile*, int, const char*, void*, char*, int*))dlsym(RTLD_NEXT, "ffgky");
+  RdDepth d; if (rd_hit(status)) { *status = READ_ERROR; return *status; }
+  return real(f, dt, key, v, comm, status);
+}
+extern "C" int ffgisz(fitsfile* f, int nlen, long* naxes, int* status) {
+  static auto real = (int (*)(fitsfile*, int, long*, int*))dlsym(RTLD_NEXT, "ffgisz");
+  RdDepth d; if (rd_hit(status)) { *status = READ_ERROR; return *status; }
+  return real(f, nlen, naxes, status);
+}
+extern "C" int ffgpxv(fitsfile* f, int dt, long* fp, LONGLONG n, void* nul, void* arr, int* anynul, int* status) {
+  static auto real = (int (*)(fitsfile*, int, long*, LONGLONG, void*, void*, int*, int*))dlsym(RTLD_NEXT, "ffgpxv");
+  RdDepth d; if (rd_hit(status)) { *status = READ_ERROR; return *status; }
+  return real(f, dt, fp, n, nul, arr, anynul, status);
+}
+extern "C" int ffmnhd(fitsfile* f, int type, char* name, int vers, int* status) {
+  static auto real = (int (*)(fitsfile*, int, char*, int, int*))dlsym(RTLD_NEXT, "ffmnhd");
+  RdDepth d; if (rd_hit(status)) { *status = READ_ERROR; return *status; }
+  return real(f, type, name, vers, status);
+}
+
+// fits_read_keyn (the reader's two passes over the header keys) is only made to fail by the probe `read-keyn-transient`:
+// call number g_kn_at made by the reader reports an error, every other one is served
+static long g_kn_at = -1, g_kn_seen = 0;
+extern "C" int ffgkyn(fitsfile* f, int n, char* key, char* value, char* comm, int* status) {
+  static auto real = (int (*)(fitsfile*, int, char*, char*, char*, int*))dlsym(RTLD_NEXT, "ffgkyn");
+  RdDepth d;
+  if (g_rd_on && g_rd_depth == 1 && g_kn_seen++ == g_kn_at && *status <= 0) { *status = READ_ERROR; return *status; }
+  return real(f, n, key, value, comm, status);
+}
+
+// What a read of this input ends in: an independent restatement of read_fits / read_fits_mem / read_fits_core as the sequence
+// of cfitsio calls they make and of their reaction to each status and value (no table, no allocator).  `kind`/`arg` = the
+// stage of the model's FileDesc (0: the read succeeds); `ncalls` = how many cfitsio calls were made.
+struct RdPlan { int kind = 0, arg = 0; bool hasKeys = true; long ncalls = 0; };
+static RdPlan ref_walk(bool mem, const std::string& path, std::vector<char>& buf, long at, bool sticky) {
+  RdArm arm(at, sticky);
+  RdPlan p; fitsfile* ff = nullptr; int err = 0;
+  auto done = [&](int kind, int arg) { p.kind = kind; p.arg = arg; if (ff) { int e = 0; fits_close_file(ff, &e); } p.ncalls = g_rd_seen; return p; };
+  if (mem) { void* b = buf.data(); size_t sz = buf.size(); fits_open_memfile(&ff, "", READONLY, &b, &sz, 0, NULL, &err); }
+  else fits_open_diskfile(&ff, path.c_str(), READONLY, &err);
+  if (err) { ff = nullptr; return done(1, 0); }
+  int hdus = 0, type = -1; fits_get_num_hdus(ff, &hdus, &err); fits_movabs_hdu(ff, 1, &type, &err);
+  if (err || type != IMAGE_HDU) return done(1, 0);
+  int nd = 0; fits_get_img_dim(ff, &nd, &err);
+  if (err || nd < 1) return done(1, 0);
+  int nkeys = 0; fits_get_hdrspace(ff, &nkeys, NULL, &err);
+  p.hasKeys = nkeys > 0;
+  if (nkeys > 0) err = 0; // the two loops over the keys (fits_read_keyn, not interposed) clear the status and end with a key that can be read
+  std::vector<unsigned> ord(nd); int o0 = 0;
+  fits_read_key(ff, TINT, "ORDER", &o0, NULL, &err);
+  if (err) { err = 0;
+    for (int i = 0; i < nd; i++) { fits_read_key(ff, TUINT, ("ORDER" + std::to_string(i)).c_str(), &ord[i], NULL, &err); if (err) return done(2, 0); }
+  } else for (int i = 0; i < nd; i++) ord[i] = o0;
+  for (int i = 0; i < nd; i++) { double per; fits_read_key(ff, TDOUBLE, ("PERIOD" + std::to_string(i)).c_str(), &per, NULL, &err); err = 0; }
+  std::vector<long> nax(nd, 0); fits_get_img_size(ff, nd, nax.data(), &err);
+  if (err) return done(4, 0);
+  uint64_t nco = 1; for (int i = 0; i < nd; i++) { if (nax[i] < 0) return done(4, 0); nco *= (uint64_t)nax[i]; }
+  { std::vector<float> co(nco + 1); std::vector<long> fp(nd, 1);
+    fits_read_pix(ff, TFLOAT, fp.data(), nco, NULL, co.data(), NULL, &err); if (err) return done(5, 0); }
+  for (int i = 0; i < nd; i++) {
+    std::string name = "KNOTS" + std::to_string(i);
+    fits_movnam_hdu(ff, IMAGE_HDU, const_cast<char*>(name.c_str()), 0, &err);
+    long nk = 0; fits_get_img_size(ff, 1, &nk, &err);
+    if (err || nk <= 0) return done(3, i);
+    uint64_t nax_i = (uint64_t)nax[nd - 1 - i];
+    if ((uint64_t)nk < 2 * (uint64_t)ord[i] + 2 || nax_i != (uint64_t)nk - ord[i] - 1) return done(3, i);
+    std::vector<double> kn(nk); long fpix = 1;
+    fits_read_pix(ff, TDOUBLE, &fpix, nk, NULL, kn.data(), NULL, &err); if (err) return done(6, i);
+    for (long j = 0; j < nk; j++) if (!std::isfinite(kn[j]) || (j > 0 && kn[j] < kn[j - 1])) return done(6, i);
+  }
+  { long ne = 0, fpix = 1; int xe = 0;
+    fits_movnam_hdu(ff, IMAGE_HDU, const_cast<char*>("EXTENTS"), 0, &xe); fits_get_img_size(ff, 1, &ne, &xe);
+    if (ne != 2 * nd) xe = 1;
+    if (!xe) { std::vector<double> ex(ne); fits_read_pix(ff, TDOUBLE, &fpix, ne, NULL, ex.data(), NULL, &xe); if (xe) return done(7, 0); } }
+  return done(0, 0);
+}
+
 // ------------------------------------------------------------------ files
 struct AuxD { int id; size_t k, raw, stored; };
 struct FileInfo {
-  std::string path, noOrder, garbage, missing;
-  std::vector<std::string> noKnots;
+  std::string path, noOrder, garbage, missing, naxis0, noExtents;
+  std::vector<std::string> noKnots, badKnots, longKnots;
+  size_t size = 0;   // bytes of `path`
+  long ncalls = 0;   // cfitsio calls a successful read of `path` makes (the same on the disk and the memory route)
   std::vector<std::array<size_t, 3>> dims; // order nknots naxes
   bool hasKeys = true;
   std::vector<AuxD> aux;
@@ -187,6 +323,29 @@ static FileInfo make_file(Rng& r, const std::string& dir, int idx) {
     fits_delete_hdu(ff, &type, &err); err = 0; fits_close_file(ff, &err);
     f.noKnots.push_back(p);
   }
+  for (int d = 0; d < nd; d++) { // KNOTS<d> present but not non-decreasing: the read fails after that knot vector was allocated
+    std::string p = dir + "/t" + std::to_string(idx) + ".badknots" + std::to_string(d) + ".fits"; copy_file(f.path, p);
+    fitsfile* ff; int err = 0; fits_open_diskfile(&ff, p.c_str(), READWRITE, &err);
+    fits_movnam_hdu(ff, IMAGE_HDU, const_cast<char*>(("KNOTS" + std::to_string(d)).c_str()), 0, &err);
+    long fpix = 1 + (long)r.below(kn[d].size() - 1) + 1; double v = r.coin() ? kn[d][fpix - 2] - 1.0 : std::numeric_limits<double>::quiet_NaN();
+    fits_write_pix(ff, TDOUBLE, &fpix, 1, &v, &err); err = 0; fits_close_file(ff, &err);
+    f.badKnots.push_back(p);
+  }
+  for (int d = 0; d < nd; d++) { // KNOTS<d> one element longer (or shorter) than the coefficient array allows: fails before the allocation
+    std::string p = dir + "/t" + std::to_string(idx) + ".longknots" + std::to_string(d) + ".fits"; copy_file(f.path, p);
+    fitsfile* ff; int err = 0; fits_open_diskfile(&ff, p.c_str(), READWRITE, &err);
+    fits_movnam_hdu(ff, IMAGE_HDU, const_cast<char*>(("KNOTS" + std::to_string(d)).c_str()), 0, &err);
+    long n = (long)kn[d].size() + (r.coin() ? 1 : -1); fits_resize_img(ff, DOUBLE_IMG, 1, &n, &err); err = 0; fits_close_file(ff, &err);
+    f.longKnots.push_back(p);
+  }
+  f.naxis0 = dir + "/t" + std::to_string(idx) + ".naxis0.fits"; // a legal FITS file whose primary array is empty (NAXIS = 0), data in an extension
+  { fitsfile* ff; int err = 0; fits_create_file(&ff, ("!" + f.naxis0).c_str(), &err); long none = 0, n = 4; float v[4] = {1, 2, 3, 4}; long fp = 1;
+    fits_create_img(ff, FLOAT_IMG, 0, &none, &err); fits_create_img(ff, FLOAT_IMG, 1, &n, &err); fits_write_pix(ff, TFLOAT, &fp, 4, v, &err); err = 0; fits_close_file(ff, &err); }
+  f.noExtents = dir + "/t" + std::to_string(idx) + ".noextents.fits"; copy_file(f.path, f.noExtents); // as written by old versions: the reader makes extents up
+  { fitsfile* ff; int err = 0, type; fits_open_diskfile(&ff, f.noExtents.c_str(), READWRITE, &err);
+    fits_movnam_hdu(ff, IMAGE_HDU, const_cast<char*>("EXTENTS"), 0, &err); fits_delete_hdu(ff, &type, &err); err = 0; fits_close_file(ff, &err); }
+  f.size = slurp(f.path).size();
+  { std::vector<char> none; f.ncalls = ref_walk(false, f.path, none, -1, false).ncalls; }
   f.garbage = dir + "/t" + std::to_string(idx) + ".garbage.fits";
   { std::ofstream g(f.garbage, std::ios::binary); for (int i = 0; i < 3000; i++) g.put((char)r.below(256)); }
   f.missing = dir + "/does-not-exist-" + std::to_string(idx) + ".fits";
@@ -196,7 +355,11 @@ static FileInfo make_file(Rng& r, const std::string& dir, int idx) {
 // ------------------------------------------------------------------ operations
 struct Op {
   char tag; int i = 0, j = 0;
-  int file = 0, kind = 0, arg = 0;             // F R M
+  // F R M: which file, and the class of input (`kind`): 0 the file as written; 1 garbage (arg odd) / no such file (arg even); 2 no ORDERi keys;
+  // 3 no KNOTS<arg> extension; 4 empty primary array (NAXIS = 0); 5 KNOTS<arg> not finite and non-decreasing; 6 KNOTS<arg> of the wrong length;
+  // 7 no EXTENTS extension (not a failure: the reader makes extents up); 10 the file cut to `arg` bytes; 11 the reader's cfitsio call number `arg` fails; 12 that call and every later one fail
+  int file = 0, kind = 0, arg = 0;
+  int mkind = 0, marg = 0; bool mkeys = true;  // F R M: what ref_walk says such a read ends in (the model's FileDesc.kind / arg / hasKeys); not serialised
   int wkind = 0, keyid = 0; std::string key, sval; bool isint = false; int ival = 0; // W K G
   bool valid = true; int order = 2, nknots = 10; // T
   int dim = 0, nk = 1;                           // V
@@ -225,17 +388,17 @@ static std::vector<FileInfo> files;
 static std::string scratch;
 static std::map<std::string, long> stats;
 
-static std::string file_desc(const FileInfo& f, int kind, int arg) {
+static std::string file_desc(const FileInfo& f, int kind, int arg, bool hasKeys) {
   std::ostringstream s; s << kind << " " << arg << " " << f.dims.size();
   for (auto& d : f.dims) s << " " << d[0] << " " << d[1] << " " << d[2];
-  s << " " << (f.hasKeys ? 1 : 0) << " " << f.aux.size();
+  s << " " << (hasKeys ? 1 : 0) << " " << f.aux.size();
   for (auto& a : f.aux) s << " " << a.id << " " << a.k << " " << a.raw << " " << a.stored;
   return s.str();
 }
 static std::string op_line(const Op& o) {
   std::ostringstream s; s << o.tag << " " << o.i;
   switch (o.tag) {
-    case 'F': case 'R': case 'M': s << " " << file_desc(files[o.file], o.kind, o.arg); break;
+    case 'F': case 'R': case 'M': s << " " << file_desc(files[o.file], o.mkind, o.marg, o.mkeys); break;
     case 'T': s << " " << (o.valid ? 1 : 0) << " " << (o.glam ? 1 : 0) << " 1 " << o.order << " " << o.nknots; break;
     case 'O': case 'Q': s << " " << (o.io == 0 ? 1 : 0); break;
     case 'Y': s << " " << o.nk << " " << o.perm.size(); for (auto p : o.perm) s << " " << p; break;
@@ -248,12 +411,39 @@ static std::string op_line(const Op& o) {
   }
   return s.str();
 }
-static const std::string& file_path(const Op& o) {
+static std::string file_path(const Op& o) {
   const FileInfo& f = files[o.file];
-  if (o.kind == 0) return f.path;
-  if (o.kind == 2) return f.noOrder;
-  if (o.kind == 3) return f.noKnots[o.arg];
-  return (o.arg % 2) ? f.garbage : f.missing;
+  switch (o.kind) {
+    case 0: case 11: case 12: return f.path;
+    case 2: return f.noOrder;
+    case 3: return f.noKnots[o.arg];
+    case 4: return f.naxis0;
+    case 5: return f.badKnots[o.arg];
+    case 6: return f.longKnots[o.arg];
+    case 7: return f.noExtents;
+    case 10: { // the first `arg` bytes of the file (an interrupted copy), made when first needed
+      std::string p = f.path + ".cut" + std::to_string(o.arg);
+      if (access(p.c_str(), F_OK) != 0) { std::vector<char> b = slurp(f.path); b.resize(std::min(b.size(), (size_t)o.arg)); std::ofstream(p, std::ios::binary).write(b.data(), b.size()); }
+      return p; }
+    default: return (o.arg % 2) ? f.garbage : f.missing;
+  }
+}
+// the bytes handed to read_fits_mem
+static std::vector<char> mem_image(const Op& o) {
+  if (o.kind == 1) return slurp(files[o.file].garbage);
+  if (o.kind == 10) { std::vector<char> b = slurp(files[o.file].path); b.resize(std::min(b.size(), (size_t)o.arg)); return b; }
+  return slurp(file_path(o));
+}
+static long rd_at(const Op& o) { return (o.kind == 11 || o.kind == 12) ? o.arg : -1; }
+// fills in what the read will end in (ref_walk); the classes whose stage is known by construction are checked against it
+static void plan_read(Op& o) {
+  std::vector<char> buf; std::string path;
+  if (o.tag == 'M') buf = mem_image(o); else path = file_path(o);
+  RdPlan p = ref_walk(o.tag == 'M', path, buf, rd_at(o), o.kind == 12);
+  o.mkind = p.kind; o.marg = p.arg; o.mkeys = p.hasKeys;
+  int ek = -1, ea = 0;
+  switch (o.kind) { case 0: case 7: ek = 0; break; case 1: case 4: ek = 1; break; case 2: ek = 2; break; case 3: case 6: ek = 3; ea = o.arg; break; case 5: ek = 6; ea = o.arg; break; default: break; }
+  if (ek >= 0 && (ek != p.kind || ea != p.arg || !p.hasKeys)) { stats["refwalk_disagrees"]++; fprintf(stderr, "REFWALK class %d arg %d: expected stage %d %d, ref_walk says %d %d\n", o.kind, o.arg, ek, ea, p.kind, p.arg); }
 }
 
 // `extents` is reported separately: the destructor and write_fits test it, everything else does not
@@ -322,6 +512,21 @@ struct IoArm {
   ~IoArm() { g_io_kind = 0; }
 };
 
+// evidence: which failing-read stages were reached by which route and class of input (counted when the call is over; only reads
+// which got as far as the reader, i.e. into an empty table)
+struct ReadStat {
+  const Op& o; bool reached, ok = false;
+  ReadStat(const Op& op, bool r) : o(op), reached(r) {}
+  ~ReadStat() {
+    if (!reached) return;
+    const char* route = o.tag == 'M' ? "mem" : (o.tag == 'F' ? "ctor" : "disk");
+    const char* cls = o.kind == 10 ? "cut" : (o.kind >= 11 ? (o.kind == 11 ? "call" : "callsticky") : "file");
+    if (ok) { if (o.kind) stats[std::string("read_") + route + "_" + cls + "_succeeded"]++; return; }
+    stats[std::string("readfail_") + route + "_stage" + std::to_string(o.mkind)]++;
+    stats[std::string("readfail_") + cls + "_" + (o.tag == 'M' ? "mem" : "disk") + "_stage" + std::to_string(o.mkind)]++;
+  }
+};
+
 // executes one op on the real objects; returns result token
 static std::string exec(const Op& o) {
   CT* a = (o.i >= 0 && o.i < NSLOT) ? slot[o.i] : nullptr;
@@ -331,10 +536,12 @@ static std::string exec(const Op& o) {
       case 'C': if (a) return "skip"; slot[o.i] = new CT(CA<void>(g_next_arena++)); return "ok";
       case 'F': { if (a) return "skip";
         // the constructor may throw: then no object exists and no destructor runs
-        slot[o.i] = new CT(file_path(o), CA<void>(g_next_arena++)); return "ok"; }
-      case 'R': if (!a) return "skip"; return a->read_fits(file_path(o)) ? "tt" : "ff";
-      case 'M': { if (!a) return "skip"; std::vector<char> buf = (o.kind == 1) ? slurp(files[o.file].garbage) : slurp(file_path(o));
-        return a->read_fits_mem(buf.data(), buf.size()) ? "tt" : "ff"; }
+        std::string path = file_path(o); ReadStat rs(o, true); RdArm arm(rd_at(o), o.kind == 12);
+        slot[o.i] = new CT(path, CA<void>(g_next_arena++)); rs.ok = true; return "ok"; }
+      case 'R': { if (!a) return "skip"; std::string path = file_path(o); ReadStat rs(o, a->ndim == 0); RdArm arm(rd_at(o), o.kind == 12);
+        bool r = a->read_fits(path); rs.ok = true; return r ? "tt" : "ff"; }
+      case 'M': { if (!a) return "skip"; std::vector<char> buf = mem_image(o); ReadStat rs(o, a->ndim == 0); RdArm arm(rd_at(o), o.kind == 12);
+        bool r = a->read_fits_mem(buf.data(), buf.size()); rs.ok = true; return r ? "tt" : "ff"; }
       case 'T': if (!a) return "skip"; do_fit(a, o); return "ok";
       case 'W': if (!a) return "skip"; return (o.isint ? a->write_key(o.key.c_str(), o.ival) : a->write_key(o.key.c_str(), o.sval)) ? "tt" : "ff";
 #ifndef PSV_NO_REMOVE_KEY
@@ -392,8 +599,12 @@ static Op gen_op(Rng& r, int nconv) {
   switch (o.tag) {
     case 'F': case 'R': case 'M': {
       o.file = r.below(files.size());
-      int c = r.below(10);
-      if (c < 6) o.kind = 0; else if (c < 7) { o.kind = 1; o.arg = r.below(2); } else if (c < 8) o.kind = 2; else { o.kind = 3; o.arg = r.below(files[o.file].dims.size()); }
+      const FileInfo& f = files[o.file]; int nd = f.dims.size();
+      int c = r.below(14);
+      if (c < 7) o.kind = r.coin(1, 8) ? 7 : 0; else if (c < 8) { o.kind = 1; o.arg = r.below(2); } else if (c < 9) o.kind = r.coin(3, 4) ? 2 : 4;
+      else if (c < 11) { const int k[] = {3, 3, 5, 6}; o.kind = k[r.below(4)]; o.arg = r.below(nd); }
+      else if (c < 12) { o.kind = 10; o.arg = r.coin() ? 2880 * (int)r.below(f.size / 2880) : (int)r.below(f.size); }   // cut at a block boundary / anywhere
+      else { o.kind = r.coin() ? 11 : 12; o.arg = r.below(f.ncalls); }
       break; }
     case 'T': o.valid = !r.coin(1, 6); o.order = r.range(1, 2); o.nknots = r.range(9, 12); o.glam = r.coin(1, 5) ? 0 : 1; break;
     case 'O': if (r.coin(2, 5)) { o.io = r.range(1, 6); o.ionth = (o.io <= 3) ? r.below(2) : 0; } break;
@@ -455,6 +666,7 @@ static long run_variant(const Variant& v, std::vector<Op>& ops, Rng* gen, int no
     if (!keep.empty() && (k >= (int)keep.size() || keep[k] != '1')) continue;
     Op o = ops[k];
     if (k == v.rfop && (o.tag == 'R' || o.tag == 'M' || o.tag == 'F')) { o.kind = v.rfkind; o.arg = v.rfarg; }
+    if (o.tag == 'R' || o.tag == 'M' || o.tag == 'F') plan_read(o);
     std::string line = op_line(o);
     fprintf(fc, "%s\n", line.c_str()); fflush(fc);
     fprintf(fi, "#%s\n", line.c_str()); fflush(fi); // the op about to run (crash attribution); ignored by the comparison
@@ -511,6 +723,20 @@ static int probe(const std::string& name, const std::string& dir) {
       printf("PROBE %s %s %zu %zu %ld\n", name.c_str(), res.c_str(), G.live.size() - own, G.bytes(), G.bad); return 0; }
     else if (name == "write-mem-failure") { // a failing write_fits_mem: the buffer it was building must not be abandoned (LeakSanitizer decides)
       CT a(p); for (int kind = 1; kind <= 4; kind++) { IoArm arm(kind, 0); try { auto r = a.write_fits_mem(); free(r.first); res = "nothrow"; } catch (std::exception&) {} } }
+    else if (name == "read-keyn-transient") { // one key of the header cannot be read, in the first or in the second pass of read_fits_core over the keys only
+      std::string pk = dir + "/keys.fits";
+      { psv::Table t; std::vector<uint32_t> ord{2}; std::vector<std::vector<double>> kn{{0, 1, 2, 3, 4, 5, 6, 7}}; std::vector<float> coef(5, 1.f);
+        psv::build_table(t, ord, kn, coef); t.write_key("KEYA", 7); t.write_key("KEYB", std::string("v")); t.write_fits(pk); }
+      long ncalls; { RdArm arm(-1, false); g_kn_at = -1; g_kn_seen = 0; { CT t(pk); } ncalls = g_kn_seen; }
+      long threw = 0, leaks = 0;
+      for (long k = 0; k < ncalls; k++) {
+        RdArm arm(-1, false); g_kn_at = k; g_kn_seen = 0;
+        try { CT t(pk); g_kn_at = -1; std::string v; t.read_key("KEYB", v); t.read_key("KEYA", v); } catch (std::exception&) { threw++; }
+        g_kn_at = -1;
+        if (!G.live.empty()) { leaks++; for (auto& q : G.live) free(q.first); G.live.clear(); }
+      }
+      if (ncalls < 8) res = "wrong"; else if (leaks) res = "leaked-at-" + std::to_string(leaks) + "-of-" + std::to_string(ncalls) + "-positions";
+      else res = "ok-" + std::to_string(ncalls) + "-positions-" + std::to_string(threw) + "-threw"; }
     else if (name == "stack-single-table") { CT a(p); std::vector<CT*> v{&a}; std::vector<double> x1{0}; CT s(v, x1, 2); }
     else if (name == "stack-mismatched-shapes") { CT a(p), b(p2); std::vector<CT*> v{&b, &a, &b}; CT s(v, x, 2); }
     else if (name == "stack-empty-table") { CT a(p), e; std::vector<CT*> v{&a, &e, &a}; CT s(v, x, 2); }
@@ -556,10 +782,17 @@ int main(int argc, char** argv) {
       if (inside) stats["alloc_failure_variants_inside_stacking"]++;
       run_variant(Variant{s, k, -1, 0, 0}, ops, nullptr, nops, ""); variants++; stats["alloc_failure_variants"]++; }
     for (int k = 0; k < nops; k++) if ((ops[k].tag == 'R' || ops[k].tag == 'M' || ops[k].tag == 'F') && ops[k].kind == 0) {
-      int nd = files[ops[k].file].dims.size();
-      run_variant(Variant{s, 0, k, 1, (int)(s % 2)}, ops, nullptr, nops, ""); run_variant(Variant{s, 0, k, 2, 0}, ops, nullptr, nops, "");
-      for (int d = 0; d < nd; d++) run_variant(Variant{s, 0, k, 3, d}, ops, nullptr, nops, "");
-      variants += 2 + nd; stats["read_failure_variants"] += 2 + nd;
+      const FileInfo& f = files[ops[k].file]; int nd = f.dims.size(); long n0 = variants;
+      auto rv = [&](int kind, int arg) { run_variant(Variant{s, 0, k, kind, arg}, ops, nullptr, nops, ""); variants++; };
+      // damaged files
+      rv(1, (int)(s % 2)); rv(2, 0); rv(4, 0); rv(7, 0);
+      for (int d = 0; d < nd; d++) { rv(3, d); rv(5, d); rv(6, d); }
+      // the file cut short: at every block boundary (0 = an empty file) and somewhere inside every block
+      Rng cr(seed * 31 + s * 131 + k);
+      for (size_t b = 0; b * 2880 < f.size; b++) { rv(10, (int)(b * 2880)); rv(10, (int)(b * 2880 + 1 + cr.below(2879))); }
+      // every cfitsio call of the reader failing: once, and for good
+      for (long c = 0; c < f.ncalls; c++) { rv(11, (int)c); rv(12, (int)c); }
+      stats["read_failure_variants"] += variants - n0;
     }
 #ifdef PSV_LSAN
     if (__lsan_do_recoverable_leak_check()) { fprintf(fi, "LEAK %ld\n", s); fprintf(fc, "LEAK %ld\n", s); fflush(fi); fflush(fc); stats["lsan_leak_sequences"]++; }
